@@ -346,6 +346,8 @@ class LoopMixin:
         # where this iteration's events begin, and what the locals were at the loop head (for per-iteration obligations at the back edge)
         b.ghost = dict(b.ghost, **{f"loop{ordn}_log": len(b.log), f"loop{ordn}_writes": len(b.writes), f"loop{ordn}_head_env": dict(b.env),
                                    f"loop{ordn}_index": i})
+        if not spec.get("auto"):
+            b.ghost = dict(b.ghost, **{f"loop{ordn}_head": b.fork(), f"loop{ordn}_mods": list(spec.get("modifies") or [])})
         if feasible(b.pc):
             if proto.get("start"):
                 for nm, goal in proto["start"](b, i):
@@ -384,6 +386,8 @@ class LoopMixin:
             self.oblige(st, "inv-init", f"loop{ordn}#{j}", self.spec_eval(inv, st, None, old=entry, goal=True), s, meta={"clause": inv})
         self.havoc_for_loop(st, s.body, spec, s)
         st.ghost = dict(st.ghost, **{f"loop{ordn}_log": len(st.log), f"loop{ordn}_writes": len(st.writes)})
+        if not spec.get("auto"):
+            st.ghost = dict(st.ghost, **{f"loop{ordn}_head": st.fork(), f"loop{ordn}_mods": list(spec.get("modifies") or [])})
         for g in ghost:
             oldv = st.env[g]
             st.env[g] = V(oldv.k, fresh(g, oldv.t.sort()), cls=oldv.cls, elem=oldv.elem)
@@ -428,11 +432,38 @@ class LoopMixin:
                         out.append(r)
         return out
 
+    def loop_own_frame(self, r, ordn):
+        """the loop's own frame: what one iteration writes lies within the `modifies` of its specification (what the cut havocs) or in objects the
+        iteration itself allocated — otherwise the state assumed after the loop keeps values the loop has changed"""
+        head = r.ghost.get(f"loop{ordn}_head")
+        mods = r.ghost.get(f"loop{ordn}_mods")
+        if head is None or mods is None:
+            return
+        from .calls import Contract
+        c2 = Contract(f"{self.cur_fn}:loop{ordn}", modifies=mods)
+        saved_env = r.env
+        n0 = len(self.obligations)
+        try:
+            r.env = dict(r.ghost.get(f"loop{ordn}_head_env") or head.env)
+            for g_, v_ in saved_env.items():
+                r.env.setdefault(g_, v_)
+            head.fresh_base = self.cur_entry.alloc_ptr() if getattr(self, "cur_entry", None) is not None else None
+            self.frame_obligations(c2, r, head, f"loop{ordn}.own{self._loop_frame_n}")
+        finally:
+            r.env = saved_env
+        for o in self.obligations[n0:]:
+            o.name = o.name.replace(f"{c2.qual}:frame:", f"{self.cur_fn}:loop-frame:")
+            o.kind = "frame"
+            o.meta["clause"] = f"loop {ordn} modifies {mods}"
+            if r.ghost.get("unannotated_loop"):
+                o.meta["unannotated_loop"] = True
+
     def loop_frame(self, r, ordn):
         """the writes of a loop-body path never reach a final state: check them against the function's frame at the back edge"""
         self._loop_frame_n = getattr(self, "_loop_frame_n", 0) + 1
         if self.back_edge_hook is not None:
             self.back_edge_hook(self, r, ordn, self._loop_frame_n)
+        self.loop_own_frame(r, ordn)
         saved_env = r.env
         try:
             c = self.cur_contract if (self.cur_contract is not None and not getattr(self.cur_contract, "auto_inline", False)) else getattr(self, "verify_contract", None)
